@@ -151,7 +151,7 @@ func VH_C20_BidAccept() {
 }
 
 func vinscLen(tag string) int {
-	return []int{0, 1, 2, 75, 76, 255, 256}[vnondetLen(tag, 0, 2+vparam("BIG", 0)*4)]
+	return []int{0, 1, 2, 75, 76, 255, 256, 65535, 65536}[vnondetLen(tag, 0, []int{2, 6, 8}[vparam("BIG", 0)])]
 }
 
 // C20-O3: Inscribe then ParseInscription returns the same content type, data and prefix.
